@@ -7,10 +7,14 @@ every grid point, never NaN).
 """
 from __future__ import annotations
 
+import fractions
+import random
+
 import core
 import ptcheck
 import ptgen
 
+F = fractions.Fraction
 PID = 'C01'
 
 
@@ -20,10 +24,78 @@ def in_pf11(rec, v) -> bool:
     return v['clause'] == 'value' and v.get('channel') in rec['meta']['pf11']
 
 
+def in_pfc01a(rec, v) -> bool:
+    """violation inside the recorded class of PF-C01a: a wrong value on a channel with the falsy outer id 0 that the
+    pulse operand of a scalar ArithmeticPT defines (the scalar operation is not applied to it)"""
+    return v['clause'] == 'value' and v.get('channel') in rec['meta'].get('falsy_arith', ())
+
+
 def checker(ctx) -> ptcheck.Checker:
     return ptcheck.Checker(ctx, PID, ('samples',),
                            'create_program/to_waveform/get_sampled vs QP.PT.createProgram/Loop.sample',
-                           want_samples=True, want_windows=False, known_classes={'PF-11': in_pf11})
+                           want_samples=True, want_windows=False, known_classes={'PF-11': in_pf11, 'PF-C01a': in_pfc01a},
+                           unmodelled=('PF-C01a',))
+
+
+# generator shapes beyond the default stream (notes/C01.md, "Seeded changes"): integer channel ids incl. 0 and renamings
+# 'A' <-> 0, FunctionPTs whose expression is the time variable itself, nested scalar arithmetic in atomic composites
+GEN = {'int_chan_p': 0.25, 'plain_t_p': 0.2, 'nest_wrap_p': 0.15}
+
+
+def shared_grid_case(rng: random.Random):
+    """ONE played waveform with several channels, built from per-channel pulse arithmetic `ramp +- pulse` whose ramp is
+    a FunctionPT with the expression `t` (the lambdified expression returns the sample-time array itself) or a general
+    affine `a*t + b`, combined by AtomicMultiChannelPT and put below scalar arithmetic / ParallelChannelPT /
+    renamings (also to integer channel ids).  `observe` samples every channel on one shared time array."""
+    g = ptgen.Gen(rng, 2, measure_p=0.1)
+    env, values = g.params()
+    n = rng.choice([2, 2, 3])
+    ints = rng.random() < 0.3
+    chans = (ptgen.INT_CHAN_POOL if ints else ptgen.CHAN_POOL)[:n]
+    common = g.p2time(env)
+
+    def ramp(ch):
+        k = rng.random()
+        if k < 0.6:
+            expr = 't'
+        elif k < 0.8:
+            expr = '%s*t + %s' % (ptgen.fstr(rng.choice([F(1, 2), F(2), F(-1), F(3, 4)])), g.volt(env)[0])
+        else:
+            expr = '%s + t' % g.volt(env)[0]
+        return {'k': 'func', 'ch': ch, 'dur': common[0], 'expr': expr, 'meas': [], 'cons': []}
+
+    def other(ch):
+        return ptgen.strip(g.atom([ch], env, common, None, allow_multi=False))
+
+    def part(ch):
+        k = rng.random()
+        if k < 0.12:
+            return ramp(ch)
+        if k < 0.22:
+            # the left operand loses its only channel: `- ramp` (a FunctorWaveform)
+            gone = {'k': 'map', 'body': other('Z'), 'pm': None, 'mm': None, 'cm': [['Z', None]]}
+            return {'k': 'aarith', 'lhs': gone, 'op': rng.choice(['+', '-']), 'rhs': ramp(ch), 'meas': []}
+        lhs, rhs = (ramp(ch), other(ch)) if rng.random() < 0.75 else (other(ch), ramp(ch))
+        if rng.random() < 0.2:
+            lhs = {'k': 'map', 'body': lhs, 'pm': None, 'mm': None, 'cm': None}
+        return {'k': 'aarith', 'lhs': lhs, 'op': rng.choice(['+', '-']), 'rhs': rhs, 'meas': []}
+
+    spec = {'k': 'amulti', 'subs': [part(c) for c in chans], 'meas': g.measurements(env, common[1]), 'cons': []}
+    k = rng.random()
+    if k < 0.35:
+        op = rng.choice(['*', '+', '-', '/'])
+        sc = ptgen.fstr(rng.choice([F(1, 2), F(2), F(-1), F(4)])) if op in '*/' else g.volt(env)[0]
+        scalar = sc if rng.random() < 0.6 else [[c, sc] for c in rng.sample(chans, rng.randrange(1, n + 1))]
+        spec = {'k': 'arith', 'body': spec, 'op': op, 'scalar': scalar, 'pt_lhs': True if op == '/' else rng.random() < 0.5}
+    elif k < 0.55:
+        spec = {'k': 'par', 'body': spec, 'over': [[7 if ints else 'P', g.volt(env)[0]]]}
+    elif k < 0.75:
+        names = list(ptgen.CHAN_POOL if ints else ptgen.INT_CHAN_POOL)
+        rng.shuffle(names)
+        spec = {'k': 'map', 'body': spec, 'pm': None, 'mm': None, 'cm': [[c, o] for c, o in zip(chans, names)]}
+    pt = ptgen.build(spec)
+    return {'spec': spec, 'params': {k: v for k, v in values.items() if k in pt.parameter_names}, 'cm': {}, 'mm': None,
+            'single': []}
 
 
 def run(ctx: core.Ctx):
@@ -31,7 +103,11 @@ def run(ctx: core.Ctx):
                 '(depth <= 4 quick / <= 6 thorough; parameters, loop ranges incl. empty/negative/non-dividing, injective '
                 'channel mappings with dropped channels, measurements, identifiers; dyadic numbers, power-of-two segment '
                 'lengths so float arithmetic is exact), all nestings of depth <= 3 over two atoms, and a single-fault '
-                'malformed stream; grids = piece boundaries, boundaries +-1/16, 0, regular grids at rates 1 and 4, all in '
+                'malformed stream; a quarter of the random cases use the integer channel ids 0, 1, 2 with renamings between integer and '
+                'string names; function templates whose expression is the time variable itself; a family of single '
+                'multi-channel waveforms built from per-channel pulse arithmetic over such ramps; all channels of a '
+                'program (and of every played waveform) are sampled on ONE time array that must come back unchanged; '
+                'grids = piece boundaries, boundaries +-1/16, 0, regular grids at rates 1 and 4, all in '
                 '[0, duration). Non-trivial = a program is produced from a tree with more than one node; distinct by '
                 'canonical request line')
     ctx.assumptions = [
@@ -39,6 +115,7 @@ def run(ctx: core.Ctx):
         'sympy parses, simplifies and lambdifies the generated rational expressions according to their mathematical meaning',
         'function templates are generated affine in t; table templates never end in a zero-length segment',
         'at a discontinuity strictly inside a time reversed part either one-sided limit is accepted (notes/C01.md)',
+        'the integer channel id k travels to the model as the atom #k (channel names are opaque strings in QP.PT)',
     ]
     ck = checker(ctx)
     for crec in ctx.corpus():
@@ -50,7 +127,10 @@ def run(ctx: core.Ctx):
                                  'wrappers rep(2), rep(0 by parameter), iteration, mapping, scalar arithmetic, reversal, '
                                  'parallel channel and binary sequencing: %d trees' % len(descs))
     base = ctx.fork('random').getrandbits(48)
-    descs += [ck.desc(family='random', seed=base + i, depth=depth) for i in range(ctx.n(900, 30000))]
+    descs += [ck.desc(family='random', seed=base + i, depth=depth, gen=GEN) for i in range(ctx.n(900, 30000))]
+    base = ctx.fork('shared-grid').getrandbits(48)
+    descs += [ck.desc(family='custom', make=shared_grid_case, seed=base + i, label='shared-grid')
+              for i in range(ctx.n(150, 3000))]
     base = ctx.fork('malformed').getrandbits(48)
     descs += [ck.desc(family='malformed', seed=base + i) for i in range(ctx.n(150, 3000))]
     ck.run_batch(descs)
